@@ -10,7 +10,7 @@ PROPS="$*"
 [ -n "$PROPS" ] || PROPS=$(python3 -c "import json;print(json.load(open('seeded/$D/meta.json'))['property'])")
 git -C "${VERIF_REPO:-/repo}" diff --quiet || { echo "/repo has uncommitted changes"; exit 2; }
 git -C "${VERIF_REPO:-/repo}" apply "$PATCH" || exit 2
-trap 'git -C "${VERIF_REPO:-/repo}" checkout -- . ; git -C "${VERIF_REPO:-/repo}" clean -fdq -- sigpyproc' EXIT
+trap 'git -C "${VERIF_REPO:-/repo}" checkout -- . ; git -C "${VERIF_REPO:-/repo}" clean -fdq -- sigpyproc; python3 translator/gen.py >/dev/null 2>&1' EXIT
 for p in $PROPS; do
   s=$(date +%s)
   out=$(./check $p --tier quick 2>&1); rc=$?
